@@ -4,6 +4,7 @@ package main
 // unresolved conflicts are reported, LALR(1) grammars are never rejected.
 
 import (
+	"os"
 	"fmt"
 	"regexp"
 	"sort"
@@ -689,6 +690,15 @@ var c06Families = []struct{ name, text string }{
 	{"alternation-in-two-orders-star", "grammar g; start = {\"a\" | \"b\" \"c\"} \"x\" | {\"b\" \"c\" | \"a\"} \"y\";"},
 	{"alternation-in-two-orders-handle", "grammar g; NUM = /[0-9]/; @left <e = e (\"+\" | \"-\") e>; start = e; e = e (\"-\" | \"+\") e | NUM;"},
 	{"juxtaposition-ebnf-like", "grammar g; @left <e = e e>; @left \"a\" \"(\"; @right \"|\"; start = e; e = e e | e \"|\" e | \"a\" | \"(\" e \")\";"},
+	{"kernel-contained-in-another-kernel-minimal", "grammar g; start = \"y\" \"x\" \"z\" | \"y\" a | a; a = \"x\";"},
+	{"kernel-contained-rand4689", "grammar g;\nstart = \"y\" \"x\" (\"z\" | start)  | (\"x\" | \"y\")  | \"y\" start ;\na = \"y\"  | {{d}} [b] \"y\"  | a (\"y\" | \"z\") {\"z\"} | ;\nb = (\"z\" | start) \"x\" \"x\" ;\nd = [\"x\"] {{\"y\"}} (\"z\" | d) ;\n"},
+	{"kernel-contained-rand20705", "grammar g; @left \"z\" \"x\" \"z\" start = \"x\" (\"x\" | start) {\"x\"} ; b = [\"z\"] \"x\" ;"},
+	{"kernel-contained-rand20421", "grammar g; @left \"x\" \"x\" start = \"x\" {{\"x\"}} (\"x\" | start) ;"},
+	{"kernel-contained-rand36792", "grammar g; @right \"x\" start = \"x\" {{\"x\"}}  | {{\"x\"}}  | {{\"x\"}} | ; d = \"x\"  | [b] [\"x\"] {\"x\"} ; b = \"x\" {\"x\"} (\"x\" | \"x\")  | b (\"x\" | \"x\") {\"x\"}  | \"x\" ; c = \"x\" ;"},
+	{"kernel-contained-wf3336", "grammar calc ; @right < start = tail tail > \"c\" ; start = [ tail \"!\" \"c\" | WS tail ] ; WS = \"do\" ; tail = \"!\" ;"},
+	{"kernel-contained-rand25786", "grammar g; @left \"z\" \"z\" start = \"z\" (\"z\" | start) {\"z\"} ;"},
+	{"kernel-contained-wf861", "grammar x9 ; start = \"then\" | ( \"then\" \"then\" factor | \"{{\" factor ) \"!\" | factor { \"{{\" factor \"then\" } ( \"{{\" \"!\" | factor factor start | factor \"then\" \"!\" ) ; factor = \"then\" ; @right \"then\" ; @none \"{{\" ;"},
+	{"kernel-contained-wf5055", "grammar calc ; @right \"+\" < start = start genx > \"if\" ; genx = {{ \"+\" genx gen | gen }} \"if\" \"+\" ; gen = \"if\" \"if\" ; start = \"if\" ;"},
 	{"plus-over-alternation", "grammar g; start = {{ \"a\" | \"b\" }} \"c\";"},
 	{"nested-closures", "grammar g; start = { [\"a\"] \"b\" } {{ (\"c\" | \"d\") }};"},
 	{"left-and-right-recursion", "grammar g; start = l r; l = l \"a\" | \"a\"; r = \"b\" r | \"b\";"},
@@ -764,7 +774,7 @@ func runC06(c *ctx) {
 		}
 	}
 	r := c.rng("random")
-	n := c.n(500, 8000)
+	n := c.n(2500, 40000)
 	for i := 0; i < n; i++ {
 		text := genSmallGrammar(r)
 		if c.mine() {
@@ -773,14 +783,14 @@ func runC06(c *ctx) {
 	}
 	// the grammars C01 generates (EBNF-heavy)
 	r2 := c.rng("wellformed")
-	for i := 0; i < c.n(150, 3000); i++ {
+	for i := 0; i < c.n(600, 8000); i++ {
 		g := genWellFormedSpec(r2, wfOpts{nNT: 1 + r2.intn(2), nTok: r2.intn(2), nStr: 2 + r2.intn(2), nExtraRules: r2.intn(2), nDirectives: r2.intn(3), depth: 1 + r2.intn(2), ruleHandles: true})
 		if c.mine() {
 			c06Check(c, fmt.Sprintf("wf%d", i), canonicalText(g), 5)
 		}
 	}
 	// operator grammars
-	nOps := c.n(64, 1200)
+	nOps := c.n(192, 2400)
 	for i := 0; i < nOps; i++ {
 		rr := newRng(c.seed, fmt.Sprintf("C06/op/%d", i))
 		if c.mineIdx(i) {
@@ -889,4 +899,80 @@ func cyclicNTs(prods []cprod) []string {
 	}
 	sort.Strings(out)
 	return out
+}
+
+func init() {
+	// vh aux c06one <file with the specification> <tokens...>: trace emerge's table and the reference on one string.
+	auxCommands["c06one"] = func(args []string) int {
+		b, err := os.ReadFile(args[0])
+		if err != nil {
+			fmt.Println(err)
+			return 2
+		}
+		text := string(b)
+		o := observeSpec(text)
+		fmt.Println("err:", o.Err, "panic:", o.Panic)
+		fmt.Println("prods:", prodsOf(o.Prods))
+		fmt.Println("prec:", renderPrec(o.Prec))
+		T, err := o.S.LALRParsingTable()
+		fmt.Println("table err:", err)
+		g, prec := refGrammarOf(o)
+		ref := buildLALR(g, prec)
+		fmt.Printf("reference: states=%d decided=%d unresolved=%d multiway=%d\n", ref.nstates, ref.decided, len(ref.unresolved), ref.multiway)
+		if T == nil {
+			return 0
+		}
+		seq := args[1:]
+		tf, prodAt := lrTableFuncs(T)
+		states := []int{0}
+		pos := 0
+		for steps := 0; steps < 200; steps++ {
+			a := ""
+			if pos < len(seq) {
+				a = seq[pos]
+			}
+			kind, target, found := tf.action(states[len(states)-1], a)
+			fmt.Printf("  emerge: states=%v next=%q -> %c %d %v", states, a, kind, target, found)
+			if !found {
+				fmt.Println()
+				break
+			}
+			if kind == 's' {
+				states = append(states, target)
+				pos++
+				fmt.Println()
+			} else if kind == 'r' {
+				p := prodAt(target)
+				fmt.Printf("  reduce %s", p.String())
+				states = states[:len(states)-len(p.Body)]
+				gt, ok := tf.gotoF(states[len(states)-1], p.Head)
+				fmt.Printf("  goto(%d,%s)=%d %v\n", states[len(states)-1], p.Head, gt, ok)
+				if !ok {
+					break
+				}
+				states = append(states, gt)
+			} else {
+				fmt.Println()
+				break
+			}
+		}
+		pre := make([]string, len(seq))
+		for i, s := range seq {
+			pre[i] = "t:" + s
+		}
+		_, in, at, why := drive(ref.funcs(), pre)
+		fmt.Println("reference table:", in, at, why)
+		tt := newTermTab()
+		L := cfgLanguages(o.Prods, len(seq), tt)[o.Start]
+		enc := ""
+		for _, s := range seq {
+			enc += tt.id(s)
+		}
+		_, inL := L[enc]
+		fmt.Println("in CFG language:", inL)
+		if os.Getenv("C06_TABLE") != "" {
+			fmt.Println(T.String())
+		}
+		return 0
+	}
 }
